@@ -6,7 +6,7 @@ Theorem C07_pin_aliases :
   lexer_wrong_case = pinned_lexer_wrong_case.
 Proof. exact (conj pin_lexer_ascii_aliases (conj pin_lexer_token_patterns pin_lexer_wrong_case)). Qed.
 
-From OV Require Import Lex.Lexer Syn.Ast Syn.Parser Rt.TokRound.
+From OV Require Import Lex.Lexer Syn.Ast Syn.Emitter Syn.Parser Rt.TokRound Rt.LexLinkBase Rt.LexLink.
 (* CANONICAL INPUT IS SILENT (parser half, every depth): reading the token layout of a core document adds no
    rewrite receipt -- every record the parser appends is advisory (5 duplicate_key or 9 pattern_autoquote, which
    report on the content and rewrite nothing); the records present before the call are kept unchanged. *)
@@ -22,3 +22,12 @@ Proof.
            | ex_intro _ st' (conj Hp (ex_intro _ l (conj Hw Hf))) => ex_intro _ st' (ex_intro _ l (conj Hp (conj Hw Hf)))
            end).
 Qed.
+
+(* CANONICAL TEXT IS SILENT, text level, every depth: reading the emitted text of a core document yields NO lexer
+   repair (no normalization, no repair candidate) and only advisory parser records. *)
+Theorem C07_text_canonical_silent :
+  forall cls numcanon holo_ok strict sp d,
+    core_doc d = true -> lex_safe_doc d = true -> nums_ok_l numcanon (dsections d) ->
+    exists warns, parse_model cls numcanon holo_ok strict (lines_of (emit sp d)) = PRDoc d [] warns /\
+                  Forall (fun w => wsub w = 5%N \/ wsub w = 9%N) warns.
+Proof. exact text_roundtrip_core. Qed.
